@@ -193,7 +193,7 @@ func (g *CallGraph) funcValueTargets(v ssa.Value) (targets []*ssa.Function, open
 }
 
 func (g *CallGraph) resolveFuncObj(f *ssa.Function, targets *[]*ssa.Function, open *bool) {
-	if f.Synthetic != "" {
+	if f.Synthetic != "" && f.Synthetic != "range-over-func yield" {
 		// bound method wrapper / thunk: look at what it calls
 		found := false
 		for _, b := range f.Blocks {
